@@ -19,7 +19,7 @@ PrivateName(n) == I!PrivateName(n)
 Internal(n) == I!IsInternal(n)
 
 Kinds == {"function", "class", "classinner", "enum"}
-DNames == {"pubdecl", "_privdecl", "__dunder__"}
+DNames == {"pubdecl", "_privdecl", "__dunder__", "__mangled", "_trail__"}     \* the last two are private: two leading underscores only, trailing underscores only
 Stems == {"pubmod", "_privmod"}
 Places == {"root", "pubsub", "privsub", "nested"}
 PlacePath(p) == CASE p = "root" -> <<>> [] p = "pubsub" -> <<"subp">> [] p = "privsub" -> <<"_hid">> [] p = "nested" -> <<"subp", "deep">>
@@ -41,7 +41,8 @@ Universe(tier) ==
   { s \in { [kind |-> k, dname |-> d, stem |-> m, place |-> p, reexp |-> r] :
               k \in Kinds, d \in DNames, m \in Stems, p \in Places, r \in UNION { Reexps(q) : q \in Places } }
       : s.reexp \in Reexps(s.place) /\ WellFormed(s)
-        /\ (tier = "thorough" \/ s.kind \in {"function", "class"} \/ s.reexp.form \in {"none", "name", "module"}) }
+        /\ (tier = "thorough" \/ s.kind \in {"function", "class"} \/ s.reexp.form \in {"none", "name", "module"})
+        /\ (s.dname \in {"__mangled", "_trail__"} => (s.kind \in {"function", "class"} /\ s.reexp.form \in {"none", "name"} /\ (tier = "thorough" \/ s.stem = "pubmod"))) }
 
 (* ---------- definitions of Appendix B ---------- *)
 ModPath(s) == PlacePath(s.place)
